@@ -102,6 +102,7 @@ func c01(e *Env) {
 	c.Floor("weight", 25)
 	e.guardPanics("score-term", "v3 Base.Score reference", func() {
 		e.termV3Base(k)
+		e.roundUpReference(k, "round-up-helper")
 		k.validChain("valid-chain")
 		e.zeroImpactFacts(k)
 	})
@@ -172,6 +173,7 @@ func c02(e *Env) {
 	c.Floor("constructor-default", 3)
 	e.guardPanics("score-term", "v3 Temporal.Score reference", func() {
 		e.termV3Temporal(k)
+		e.roundUpReference(k, "round-up-helper")
 		k.validChain("valid-chain")
 	})
 	e.weightObligations(&spec.V3, "E", "RL", "RC")
@@ -194,6 +196,7 @@ func c03(e *Env) {
 	c.Floor("constructor-default", 11)
 	e.guardPanics("score-term", "v3 Environmental.Score reference", func() {
 		e.termV3Env(k)
+		e.roundUpReference(k, "round-up-helper")
 		k.validChain("valid-chain")
 	})
 	e.weightObligations(&spec.V3, "AV", "AC", "PR", "UI", "S", "C", "I", "A", "E", "RL", "RC", "CR", "IR", "AR", "MAV", "MAC", "MPR", "MUI", "MS", "MC", "MI", "MA")
